@@ -374,6 +374,9 @@ AF = attr_factory.AttributeFactory()
 def mk_attr(a):
     """a = {'name', 'index': None|int, 'val': optional override} -> kmip.core Attribute (1.x form)."""
     name = a['name']
+    if name == 'Cryptographic Usage Mask' and isinstance(a.get('val'), int):
+        # a raw 32-bit value, possibly with bits no CryptographicUsageMask member names
+        return kdrv.raw_attr(name, cattrs.CryptographicUsageMask(a['val']), a.get('index'))
     if name in CONSTRUCTIBLE:
         v = a.get('val', _val(name))
         return AF.create_attribute(enums.AttributeType(name), v, a.get('index'))
@@ -383,6 +386,10 @@ def mk_attr(a):
 def mk_value2(a):
     """Bare attribute value carrying its own attribute tag (KMIP 2.0 New/CurrentAttribute content)."""
     name = a['name']
+    if name == 'Cryptographic Usage Mask' and isinstance(a.get('val'), int):
+        v = cattrs.CryptographicUsageMask(a['val'])
+        v.tag = enums.Tags.CRYPTOGRAPHIC_USAGE_MASK
+        return v
     v = AF.create_attribute(enums.AttributeType(name), a.get('val', _val(name))).attribute_value
     v.tag = enums.Tags[enums.AttributeType(name).name]
     return v
@@ -431,7 +438,8 @@ def mk_item(req):
             derivation_method=enums.DerivationMethod[req['method']], derivation_parameters=dp,
             template_attribute=mk_template(req['ta'])))
     if op == 'Locate':
-        return kdrv.locate([mk_attr(a) for a in req['attrs']], offset=req.get('offset'), maximum=req.get('maximum'))
+        return kdrv.locate([mk_attr(a) for a in req['attrs']], offset=req.get('offset'), maximum=req.get('maximum'),
+                           storage_status_mask=req.get('ssm'))
     if op == 'Get':
         w = req.get('wrap')
         spec = None
@@ -869,6 +877,50 @@ def enum_sweep_menu(sym, priv, pub):
     return out
 
 
+# values of a bit-mask field outside the named members: each unnamed bit alone, every bit, none, the sign bit, named + unnamed
+NAMED_MASK = 0
+for _m in UM:
+    NAMED_MASK |= _m.value
+MASK_VALUES = [0, NAMED_MASK, 0x7fffffff, -2 ** 31, -1, UM.ENCRYPT.value | 0x01000000, UM.SIGN.value | 0x40000000, NAMED_MASK | 0x02000000] + \
+              [1 << b for b in range(31) if not (NAMED_MASK >> b) & 1] + [UM.ENCRYPT.value, UM.EXPORT.value | UM.ENCRYPT.value]
+
+
+def mask_menu(uid, ver):
+    """Bit-mask and integer valued request fields with values outside the named members / usual range."""
+    out = []
+    M = 'Cryptographic Usage Mask'
+    A, L = 'Cryptographic Algorithm', 'Cryptographic Length'
+    for v in MASK_VALUES:
+        out.append({'op': 'Locate', 'attrs': [{'name': M, 'val': v}]})
+        out.append({'op': 'Locate', 'attrs': [{'name': 'Object Type', 'val': OT.SYMMETRIC_KEY}, {'name': M, 'val': v}, {'name': 'State'}]})
+        out.append({'op': 'Create', 'otype': 'SYMMETRIC_KEY', 'ta': tmpl(A, L, {'name': M, 'val': v})})
+        out.append({'op': 'Register', 'otype': 'SECRET_DATA', 'secret': {'type': 'SECRET_DATA'}, 'ta': tmpl({'name': M, 'val': v})})
+        out.append({'op': 'Register', 'otype': 'OPAQUE_DATA', 'secret': {'type': 'OPAQUE_DATA'}, 'ta': tmpl({'name': M, 'val': v})})
+        if uid is not None:
+            out.append({'op': 'DeriveKey', 'otype': 'SYMMETRIC_KEY', 'uids': [uid], 'method': 'HASH', 'dp': {'params': {'hashing_algorithm': HASH.SHA_256}},
+                        'ta': tmpl(A, L, {'name': M, 'val': v})})
+            if ver < (2, 0):
+                out.append({'op': 'ModifyAttribute1', 'uid': uid, 'attr': {'name': M, 'index': None, 'val': v}})
+            else:
+                out.append({'op': 'SetAttribute', 'uid': uid, 'attr': {'name': M, 'val': v}})
+                out.append({'op': 'ModifyAttribute2', 'uid': uid, 'attr': {'name': M, 'val': v}, 'current': {'name': M, 'val': v}})
+                out.append({'op': 'DeleteAttribute2', 'uid': uid, 'current': {'name': M, 'val': v}, 'ref': None})
+    for v in MASK_VALUES[:8]:
+        out.append({'op': 'CreateKeyPair', 'common': tmpl({'name': A, 'val': ALG.RSA}, {'name': L, 'val': 512}), 'private': tmpl({'name': M, 'val': v}),
+                    'public': tmpl({'name': M, 'val': v})})
+    for off, mx in [(-1, None), (0, 0), (2 ** 31 - 1, None), (None, -1), (None, 2 ** 31 - 1), (-2 ** 31, -2 ** 31), (1, 2 ** 31 - 1), (5, -3)]:
+        out.append({'op': 'Locate', 'attrs': [], 'offset': off, 'maximum': mx})
+        out.append({'op': 'Locate', 'attrs': [{'name': 'Object Type', 'val': OT.SYMMETRIC_KEY}], 'offset': off, 'maximum': mx})
+    for ssm in (0, 1, 2, 3, 4, 7, 8, 0x7fffffff, -1, -2 ** 31):
+        try:        # the request payload itself refuses values that are not StorageStatusMask combinations: those cannot arrive
+            payloads.LocateRequestPayload(storage_status_mask=ssm)
+        except (TypeError, ValueError):
+            continue
+        out.append({'op': 'Locate', 'attrs': [], 'ssm': ssm})
+        out.append({'op': 'Locate', 'attrs': [{'name': 'State'}], 'ssm': ssm})
+    return out
+
+
 def _other_loc(n):
     return {'Name': kdrv.name_value('absent-name'), 'State': ST.DESTROYED, 'Object Type': OT.CERTIFICATE,
             'Cryptographic Usage Mask': [UM.EXPORT], 'Sensitive': False, 'Object Group': 'absent-group'}[n]
@@ -912,7 +964,7 @@ def attr_abs(a):
     if name in ('Object Group', 'Operation Policy Name'):
         return 0, v
     if name == 'Cryptographic Usage Mask':
-        return _mask_val(v), ''
+        return (v if isinstance(v, int) else _mask_val(v)), ''
     if name == 'Unique Identifier':
         return (int(v) if str(v).isdigit() else -1), ''
     if name in ('Sensitive', 'Fresh', 'Always Sensitive', 'Extractable', 'Never Extractable'):
@@ -1299,6 +1351,16 @@ def run_aux(grid, ctx, ver, rng, sample):
         for req in menu:
             obs = grid.cell(drv, req, ver, store, desc='derive')
             if obs['status'] == 'SUCCESS':
+                store = observe_store(drv)
+        store = observe_store(drv)
+        for req in mask_menu(ua[0], ver):
+            obs = grid.cell(drv, req, ver, store, desc='masks')
+            if req['op'] in MUTATING and obs['status'] == 'SUCCESS':
+                # objects a cell created are destroyed again, so that the (large) store stays the same term
+                p = obs.get('payload') or {}
+                for key in ('unique_identifier', 'private_key_unique_identifier', 'public_key_unique_identifier'):
+                    if req['op'] in ('Create', 'Register', 'CreateKeyPair', 'DeriveKey') and p.get(key) is not None:
+                        drv.eng.request([kdrv.destroy(str(p[key]))], user='alice')
                 store = observe_store(drv)
         for user in ('alice', 'bob', 'carol'):
             store = observe_store(drv, user)
